@@ -250,7 +250,7 @@ class UnitRun:
         if text not in self.assumptions:
             self.assumptions.append(text)
 
-    def lean_file(self, path, timeout=1500):
+    def lean_file(self, path, timeout=1500, only=None):
         """lemmas that need induction / finite sums are stated and proved in Lean 4 + Mathlib; the file is checked by
         `lean` on every run and every `theorem` in it is recorded as one obligation (back end lean4+mathlib).  A file
         that does not check leaves its obligations UNDECIDED (it says nothing about the code)."""
@@ -258,6 +258,9 @@ class UnitRun:
 
         src = open(path).read()
         names = re.findall(r"^theorem\s+([A-Za-z_][A-Za-z0-9_']*)", src, re.M)
+        if only is not None:
+            missing = [n for n in only if n not in names]
+            names = [n for n in names if n in only] if not missing else []
         sorry = bool(re.search(r"\b(sorry|admit)\b|^\s*axiom\b", re.sub(r"/-.*?-/", "", src, flags=re.S), re.M))
         t0 = time.time()
         try:
